@@ -3,10 +3,22 @@ package main
 // R2 — LOCK (DESIGN §3 R2): must-held lockset over each function's CFG.
 //  L1  guarded-by: accesses to the listed fields happen with the owning mutex held
 //      (read mode suffices for reads); fields of the guarded structs that are not listed as
-//      guarded or immutable are reported when touched on the request path
+//      guarded or immutable are reported when touched on the request path.
+//      The lockset a function starts with is the meet of the locksets at all its call sites
+//      (helpers documented "caller holds the lock", closures handed to a locking wrapper,
+//      closures called or deferred in place). A guarded map is followed after the load: handing
+//      it to a callee that writes it (or has no body) needs the write lock; returning, storing,
+//      capturing it or handing it to a goroutine lets it escape the critical section. Copying
+//      the whole struct by value shares the maps under a different mutex. Fields listed as
+//      immutable-after-construction are checked not to be stored into an object the storing
+//      function did not allocate (immutableWriters lists the builder exceptions).
 //  L2  pairing: Unlock/RUnlock only where the lock is must-held in the matching mode;
-//      every lock taken is released on every path (directly or by a deferred unlock);
+//      every lock taken is released in the matching mode on every path (directly, by a deferred
+//      unlock, or by a deferred closure that unlocks); a deferred unlock must find the lock
+//      held in its mode at every exit it runs on (no double unlock);
 //      TryLock counts as held only on the true branch of its result
+//  L3  no re-acquisition: neither directly nor through a (static) callee is a mutex taken that
+//      the goroutine already holds (sync mutexes are not reentrant)
 
 import (
 	"fmt"
@@ -594,7 +606,7 @@ var guardedFields = map[string]map[string]string{
 
 var immutableFields = map[string]map[string]string{
 	plannerPkg + ".CachedPlanner": {
-		"TTL":      "set by NewCachedPlanner only",
+		"TTL":      "set by NewCachedPlanner only (checked: R2.L1 reports any store into a planner the storing function did not allocate)",
 		"executor": "set by NewCachedPlanner / WithPlannerExecutor before the planner is handed to the gateway (a usage convention of the exported builder: calling it while requests run would race with Plan)",
 		"RWMutex":  "the guard itself",
 	},
@@ -649,6 +661,18 @@ var immutableWriters = map[string]map[string]string{
 	plannerPkg + ".CachedPlanner.executor": {
 		"planner.(*CachedPlanner).WithPlannerExecutor": "exported builder, called before the planner is handed to the gateway (usage convention)",
 	},
+}
+
+// mapReaders: functions without a body in the module that only read the map they are given
+// and do not keep it (anything else without a body is assumed to write it).
+var mapReaders = map[string]string{
+	"maps.Clone":                   "copies the entries into a new map",
+	"maps.Equal":                   "compares entries",
+	"golang.org/x/exp/maps.Keys":   "copies the keys into a new slice",
+	"golang.org/x/exp/maps.Values": "copies the values into a new slice",
+	"golang.org/x/exp/maps.Clone":  "copies the entries into a new map",
+	"github.com/samber/lo.Keys":    "copies the keys into a new slice",
+	"github.com/samber/lo.Values":  "copies the values into a new slice",
 }
 
 func isAtomicScalar(t types.Type) bool {
@@ -735,6 +759,14 @@ func ruleLocks(structs ...string) ruleFn {
 				if u, ok := ins.(*ssa.UnOp); ok && u.Op == token.MUL && isWantedStructValue(u.Type(), want) {
 					relevant = true
 				}
+				// hands one of the structs to a callee (which may lock it)
+				if ci, ok := ins.(ssa.CallInstruction); ok && !relevant {
+					for _, a := range ci.Common().Args {
+						if want[namedOf(a.Type())] {
+							relevant = true
+						}
+					}
+				}
 			}
 			if !relevant {
 				continue
@@ -805,6 +837,22 @@ func ruleLocks(structs ...string) ruleFn {
 						}
 						return false
 					})
+					if !released {
+						// re-acquired under a pending deferred release (temporary unlock/lock
+						// inside a `Lock(); defer Unlock()` section): the defer registered on
+						// every path to this point releases it; checkDeferred verifies the mode
+						// at the exits
+						for _, i2 := range allInstrs(fn) {
+							if i2 == ins || !instrDominates(i2, ins) {
+								continue
+							}
+							for _, o2 := range deferredUnlocks(i2) {
+								if o2.id == op.id && o2.kind == wantRel {
+									released = true
+								}
+							}
+						}
+					}
 					if released {
 						r.OK("R2.L2", name, op.kind, site, "released (or its release deferred) on every path to return")
 					} else {
@@ -1045,7 +1093,16 @@ func (lc *lockCtx) checkDeferred(la *lockAnalysis, name string, d ssa.Instructio
 			if s[op.id] != "" {
 				why = "the mutex is held in a different mode on a path to this return"
 			}
-			r.Bad("R2.L2", name, "defer "+op.kind, site, "the deferred "+op.kind+" runs at the return at "+r.P.pos(ins.Pos())+" where "+why+": unlocking an unlocked mutex is a fatal error (`sync: Unlock of unlocked RWMutex`) that takes the whole process down")
+			retPos := ins.Pos()
+			for k := instrIdx(ins) + 1; k < len(b.Instrs) && !retPos.IsValid(); k++ {
+				retPos = b.Instrs[k].Pos()
+			}
+			for k := instrIdx(ins) - 1; k >= 0 && !retPos.IsValid(); k-- {
+				// `return` statements of a function with defers carry no position of their own:
+				// name the last positioned statement before the exit
+				retPos = b.Instrs[k].Pos()
+			}
+			r.Bad("R2.L2", name, "defer "+op.kind, site, "the deferred "+op.kind+" runs at the return at "+r.P.pos(retPos)+" where "+why+": unlocking an unlocked mutex is a fatal error (`sync: Unlock of unlocked RWMutex`) that takes the whole process down")
 		}
 	}
 	if ok {
@@ -1120,7 +1177,12 @@ func (lc *lockCtx) guardedUses(la *lockAnalysis, name string, fa *ssa.FieldAddr,
 					continue
 				}
 				callee := y.Call.StaticCallee()
-				if callee == nil || len(callee.Blocks) == 0 || y.Call.IsInvoke() {
+				if reason, ok := mapReaders[calleeName(&y.Call)]; ok && !y.Call.IsInvoke() {
+					points = append(points, point{y, "R", ""})
+					_ = reason
+					continue
+				}
+				if callee == nil || len(callee.Blocks) == 0 || y.Call.IsInvoke() || !inModule(origin(callee)) {
 					// no body to look at: a function handed a map may write it
 					cn := calleeName(&y.Call)
 					if cn == "" {
@@ -1148,6 +1210,29 @@ func (lc *lockCtx) guardedUses(la *lockAnalysis, name string, fa *ssa.FieldAddr,
 			case *ssa.Return:
 				escape(y, "is returned to the caller")
 			case *ssa.Store:
+				// a local cell (named result, variable shared with a closure): follow its loads
+				if al, isAl := y.Addr.(*ssa.Alloc); isAl && y.Val == v && depth < 4 && al.Referrers() != nil {
+					local := true
+					for _, ar := range *al.Referrers() {
+						switch z := ar.(type) {
+						case *ssa.Store:
+							if z.Addr != ssa.Value(al) {
+								local = false
+							}
+						case *ssa.UnOp, *ssa.DebugRef:
+						default:
+							local = false
+						}
+					}
+					if local {
+						for _, ar := range *al.Referrers() {
+							if ld, isLd := ar.(*ssa.UnOp); isLd {
+								uses(ld, depth+1)
+							}
+						}
+						continue
+					}
+				}
 				escape(y, "is stored into another variable or field")
 			case *ssa.MakeClosure:
 				escape(y, "is captured by a closure")
